@@ -29,7 +29,8 @@ def check_C16(ctx):
     progs += [scope_program(rng, 3, bad=0.2) for _ in range(ctx.n(60, 600))]
     progs += [b"print 1 +\nprint *\nvar x = )\n" * 5, b"def a { x = 1\n y = 2\n z = 3\n w = 4\n v = 5 }\nprint 1\n", b"print @\n"]
     # 1. twice in one process, interleaved with everything else (earlier calls must not matter)
-    cases = [dict(id="a%d" % i, src_hex=p.hex(), opts="", name="input") for i, p in enumerate(progs)]
+    progs += [b"def cfg { host = 1\n port = 2\n user = 3\n pass = 4\n print hots }\n", b"def a { x = 1\n y = 2\n z = 3\n def b { w = 4\n v = 5\n print nosuch } }\n"] * 4
+    cases = [dict(id="a%d" % i, src_hex=p.hex(), opts="", name="input", sticky=(i % 7 == 0)) for i, p in enumerate(progs)]
     cases += [dict(id="b%d" % i, src_hex=p.hex(), opts="", name="input") for i, p in reversed(list(enumerate(progs)))]
     base = run_probe_env(ctx, "interp", cases, {}, "inproc")
     for i, p in enumerate(progs):
@@ -37,12 +38,29 @@ def check_C16(ctx):
         if not a or not b:
             continue
         ctx.count(1, casehash(p))
+        stc = a.get("sticky")
+        if stc and stc.get("class") == "ok":
+            want_out, want_log = a["obs"]["Out"], a["obs"]["Log"]
+            if stc["first_touched"] or stc["second_out"] != want_out or stc["second_log"] != want_log:
+                ctx.violation("options given to one call show in a later call that does not give them (or a later call wrote to an earlier "
+                              "call's writers)", dict(src_hex=p.hex(), src=p[:300].decode("utf8", "replace")), impl=stc,
+                              model=dict(out=want_out, log=want_log), theorem="C16_no_global_state", key="sticky-options")
         if a["obs"].get("Altered"):
             ctx.violation(a["obs"]["Altered"], dict(src_hex=p.hex(), src=p[:300].decode("utf8", "replace")), impl=a["obs"],
                           theorem="C16_prog_readonly", key="prog-altered")
         if a["obs"] != b["obs"]:
             ctx.violation("two calls in one process gave different outcomes", dict(src_hex=p.hex(), src=p[:300].decode("utf8", "replace")),
                           impl=a["obs"], model=b["obs"], theorem="C16_execute_pure", key="repeat-inproc")
+    by_src = {}
+    for i, p in enumerate(progs):
+        for k in ("a%d" % i, "b%d" % i):
+            if base.get(k):
+                by_src.setdefault(p, []).append(json.dumps({x: y for x, y in base[k]["obs"].items() if not x.startswith("_")}, sort_keys=True))
+    for p, obs in by_src.items():
+        if len(set(obs)) > 1:
+            ctx.violation("%d runs of one program in one process gave %d different outcomes" % (len(obs), len(set(obs))),
+                          dict(src_hex=p.hex(), src=p[:300].decode("utf8", "replace")), impl=sorted(set(obs))[:3],
+                          theorem="C16_execute_pure", key="repeat-many")
     # 2. fresh processes with different GOMAXPROCS and hash seeds
     first = [c for c in cases if c["id"].startswith("a")]
     for procs in ("1", "2", "16"):
